@@ -18,7 +18,7 @@ import dfols.trust_region as _T  # noqa: E402
 PROP = "C13"
 LEVEL = "exploration"
 RULE = ("Three generated campaigns. (a) 'geometry': direct calls trsbox_geometry(xbase, c, g, lower, upper, Delta), n<=6, c in "
-        "{0, 1, drawn}, g over 7 decades with zero components, Delta over 5 decades, each box side drawn from {degenerate (on "
+        "{0, 1, drawn}, g over 7 decades with zero and tiny (down to 1e-13) components, Delta over 5 decades, each box side drawn from {degenerate (on "
         "xbase), 1e-3, 0.3, 1, 30 times Delta, absent}; global optimality against a clipped-ray bisection reference. "
         "(b) 'convex': ctrsbox_pgd / ctrsbox_geometry / ctrsbox_sfista with 1-3 balls/half-spaces/boxes containing the centre "
         "(centre in the interior, on the boundary, or with the boundaries of several sets passing through it), PSD/zero/low-rank H, L1/L2 regulariser for S-FISTA. (c) 'regstep': "
@@ -45,6 +45,8 @@ def geom_cases(draw):
         v = draw(sc.g8)
         if draw(st.integers(0, 5)) == 0:
             v = 0.0
+        elif draw(st.integers(0, 5)) == 0:
+            v = v * 10.0 ** -draw(st.integers(4, 10))     # tiny (not zero) components: down to 1e-13
         g.append(v * 10.0 ** eg)
     c = draw(st.sampled_from([0.0, 1.0, 1.0, None]))
     if c is None:
